@@ -7,6 +7,8 @@ import Driver.OpsPipeline
 import Driver.OpsDir
 import Driver.OpsSearch
 import Driver.OpsContainer
+import Driver.OpsSyncVec
+import Driver.OpsFs
 
 open Jubako Jubako.Driver
 
@@ -36,6 +38,8 @@ def dispatch (line : String) : IO String := do
   | "find" :: args => return runFind args
   | "ct.open" :: args => runContainerOpen args
   | "ct.read" :: args => runContainerRead args
+  | "hist.syncvec" :: args => return runSyncVecHist args
+  | "hist.fs" :: args => return runFsHist args
   | ["ping"] => return "pong"
   | _ => return "bad-op"
 
